@@ -93,7 +93,7 @@ def classify(spec, table, backend, kind, out2, diff=None, res=None):
         return "add_missing_columns-ignores-regex-columns-when-placing-columns"
     if backend.startswith("polars") and spec.get("drop_invalid_rows") and kind == "result-rejected-by-stripped-schema":
         if set(reasons) & {"WRONG_DATATYPE", "COLUMN_NOT_IN_DATAFRAME", "COLUMN_NOT_IN_SCHEMA",
-                           "COLUMN_NOT_ORDERED", "DATATYPE_COERCION"}:
+                           "COLUMN_NOT_ORDERED", "DATATYPE_COERCION", "CHECK_ERROR"}:
             return "polars-drop_invalid_rows-swallows-non-row-errors"
     return None
 
@@ -154,6 +154,9 @@ def pandas_case(run, spec, table, opts, muts):
     stripped = P.strip(spec)
     out2 = H.run_validate(B.pandas_schema(stripped), res, lazy=True)
     run.count("a:stripped_revalidation_checked")
+    if out2.kind == "exc":
+        run.count("undecided:revalidation_raised_internal_exception(C06):" + H.exc_sig(out2.exc))
+        return
     if not out2.accepted and null_duplicates_only(out2):
         run.count("undecided:null_duplicates_in_unique_field")
         return
@@ -169,6 +172,9 @@ def pandas_case(run, spec, table, opts, muts):
     before = S.snap(res)
     out3 = H.run_validate(B.pandas_schema(spec), res, lazy=lazy)
     run.count("b:fixpoint_checked")
+    if out3.kind == "exc":
+        run.count("undecided:revalidation_raised_internal_exception(C06):" + H.exc_sig(out3.exc))
+        return
     if not out3.accepted:
         run.violation("result-rejected-on-revalidation",
                       C.brief(spec, table, {"backend": "pandas", "options": opts,
@@ -213,6 +219,9 @@ def polars_case(run, spec, table, opts, muts, lazyframe):
             return
     out2 = H.run_validate(B.polars_schema(P.strip(spec)), res, lazy=True)
     run.count("a:stripped_revalidation_checked")
+    if out2.kind == "exc":
+        run.count("undecided:revalidation_raised_internal_exception(C06):" + H.exc_sig(out2.exc))
+        return
     if not out2.accepted and null_duplicates_only(out2):
         run.count("undecided:null_duplicates_in_unique_field")
         return
@@ -226,6 +235,9 @@ def polars_case(run, spec, table, opts, muts, lazyframe):
     before = S.snap(res)
     out3 = H.run_validate(B.polars_schema(spec), res, lazy=lazy)
     run.count("b:fixpoint_checked")
+    if out3.kind == "exc":
+        run.count("undecided:revalidation_raised_internal_exception(C06):" + H.exc_sig(out3.exc))
+        return
     if not out3.accepted:
         run.violation("result-rejected-on-revalidation",
                       C.brief(spec, table, {"backend": backend, "options": opts,
